@@ -583,7 +583,13 @@ pub fn bases(quick: bool) -> Vec<(AbsReplay, &'static str)> {
 		if gecko {
 			a.gecko = Gecko::Live { live: 700, nonzero_pad: true };
 		}
-		a.metadata = Some(vec![("a".into(), ubj::MVal::Str("xy".into())), ("m".into(), ubj::MVal::Map(vec![("k".into(), ubj::MVal::Int(-2))]))]);
+		// metadata shapes differ between the bases (the reader logs parts of it)
+		a.metadata = Some(match v {
+			(1, 0) => vec![("lastFrame".into(), ubj::MVal::Int(5))],
+			(2, 2) | (3, 0) => default_meta(),
+			(2, 0) => vec![("players".into(), ubj::MVal::Str("not a map".into())), ("lastFrame".into(), ubj::MVal::Str("not an int".into()))],
+			_ => vec![("a".into(), ubj::MVal::Str("xy".into())), ("m".into(), ubj::MVal::Map(vec![("k".into(), ubj::MVal::Int(-2))]))],
+		});
 		a
 	};
 	let mut v = vec![(mk((1, 0), false), "v1.0"), (mk((2, 2), false), "v2.2"), (mk((3, 16), true), "v3.16")];
@@ -821,8 +827,16 @@ pub fn run() {
 		}
 	}
 	// fault injection: every read call of a clean run x error kind
+	let mut fault_bases: Vec<(Arc<Vec<u8>>, &'static str)> = vec![];
 	for (abs, name) in bases(cx.quick()) {
-		let bytes = Arc::new(record(&abs).doc.assemble());
+		let rec = record(&abs);
+		fault_bases.push((Arc::new(rec.doc.assemble()), name));
+		// the same replay as a recorder leaves it while the game is still running: declared raw length 0
+		let mut d = rec.doc.clone();
+		d.raw_len_override = Some(0);
+		fault_bases.push((Arc::new(d.assemble()), "in-progress (raw length 0)"));
+	}
+	for (bytes, name) in fault_bases {
 		let mut jobs = vec![];
 		for (skip, hash) in all_opts {
 			let mut r = EnvReader::new(&bytes, Sched::Full);
